@@ -141,7 +141,8 @@ def decide(prop, tier, seed):
             violations.append(o)
         else:
             undecided.append((o["unit"], "obligation %s fails but was never discharged on the unchanged tree (not in baseline)" % n))
-    missing = sorted(base - set(by_name))
+    thorough_only = set(baseline.get("_thorough_only", []))
+    missing = sorted(n for n in base - set(by_name) if tier == "thorough" or n not in thorough_only)
     if missing and not undecided:
         undecided.append(("-", "baseline obligations not generated: " + ",".join(missing[:5])))
     for n, k in known_full.items():
@@ -150,7 +151,7 @@ def decide(prop, tier, seed):
 
     # replay files
     lines = []
-    rdir = os.path.join(VERIF, "replay", prop)
+    rdir = os.path.join(os.environ.get("VERIF_REPLAY_DIR", os.path.join(VERIF, "replay")), prop)
     if violations:
         os.makedirs(rdir, exist_ok=True)
     import replay as replay_mod
@@ -188,7 +189,8 @@ def decide(prop, tier, seed):
             "functions_under_contract": sorted(set(f for r in results for f in r.get("functions", []))),
             "units": [{"unit": r["unit"], "backend": r["backend"], "status": r["status"], "reason": r.get("reason", ""),
                        "wall_s": round(r.get("wall_s", 0), 2), "solver_s": round(r.get("solver_s", 0), 3),
-                       "canaries": r.get("canaries"), "covers": r.get("covers"), "sources": r.get("sources", [])} for r in results],
+                       "canaries": r.get("canaries"), "covers": r.get("covers"), "sources": r.get("sources", []),
+                       "reused_result_of_identical_inputs": r.get("reused_result_of_identical_inputs")} for r in results],
             "obligation_table": [{"name": o["name"], "unit": o["unit"], "function": o["fn"], "backend": o["backend"],
                                   "status": o["status"], "solver_s": o.get("solver_s", 0), "bounded": o.get("bounded"),
                                   "clause": o.get("clause", "")} for o in obs],
@@ -201,8 +203,9 @@ def decide(prop, tier, seed):
         "wall_s": round(time.time() - t0, 2),
         "violations": len(violations),
     }
-    os.makedirs(os.path.join(VERIF, "evidence"), exist_ok=True)
-    json.dump(ev, open(os.path.join(VERIF, "evidence", prop + ".json"), "w"), indent=1)
+    evdir = os.environ.get("VERIF_EVIDENCE_DIR", os.path.join(VERIF, "evidence"))   # (redirected only by the seeded-change trials)
+    os.makedirs(evdir, exist_ok=True)
+    json.dump(ev, open(os.path.join(evdir, prop + ".json"), "w"), indent=1)
 
     for r in results:
         print("unit %-14s %-5s %-9s obligations=%d discharged=%d failed=%d  %.1fs %s" % (
@@ -260,6 +263,7 @@ def write_baseline():
     touched = set(r["unit"] for r in results)
     # drop old entries of the re-run units, then add the discharged ones
     unit_of = base.get("_unit_of", {})
+    tonly = set(n for n in base.get("_thorough_only", []) if unit_of.get(n) not in touched)
     for p in list(base):
         if p.startswith("_"):
             continue
@@ -272,10 +276,15 @@ def write_baseline():
                     if o["name"] not in base[p]:
                         base[p].append(o["name"])
                 unit_of[o["name"]] = r["unit"]
+                if o.get("tier") == "thorough":
+                    tonly.add(o["name"])
+                else:
+                    tonly.discard(o["name"])
     for p in base:
         if not p.startswith("_"):
             base[p] = sorted(base[p])
     base["_unit_of"] = dict(sorted(unit_of.items()))
+    base["_thorough_only"] = sorted(tonly)
     json.dump(base, open(BASELINE, "w"), indent=1, sort_keys=True)
     shutil.rmtree(work, ignore_errors=True)
 
